@@ -125,9 +125,14 @@ func VerifC01CloseDelimited() {
 	if r1.method == "POST" {
 		r1.body = vf.Bytes("req-body", vf.Choice("req-body-len", 2))
 	}
-	r1.close = vf.Choice("req-close", 2) == 1
+	switch vf.Choice("req-close", 3) {
+	case 1:
+		r1.close = true
+	case 2:
+		r1.http10 = true // an HTTP/1.0 client without keep-alive: the connection ends with the response
+	}
 	r2 := reqSpec{method: "GET", path: "/b?q=2", hval: "h2"}
-	s1 := resSpec{status: 200, framing: 2, hval: "x", http10: vf.Choice("origin-http10", 2) == 1}
+	s1 := resSpec{status: 200, framing: vf.Choice("first-response-framing", 2) * 2, hval: "x", http10: vf.Choice("origin-http10", 2) == 1}
 	s1.body = vf.Bytes("res-body", vf.Choice("res-body-len", vf.Param("bodylens")))
 	s2 := resSpec{status: 200, hval: "y", body: []byte("second")}
 	var segs [][]byte
@@ -162,7 +167,7 @@ func VerifC01CloseDelimited() {
 	vf.Assert(len(o.seen) == len(got), "one-response-per-request-forwarded")
 	if len(got) == 2 {
 		// the proxy kept the connection: then the second exchange is intact too
-		vf.Assert(!r1.close, "connection-kept-although-the-client-asked-to-close")
+		vf.Assert(!r1.close && !r1.http10, "connection-kept-although-the-client-asked-to-close")
 		vf.Assert(got[1].ok && got[1].status == 200 && string(got[1].body) == "second" && len(got[1].hval) == 1 && got[1].hval[0] == "y", "second-response-correct-and-one-to-one")
 		vf.Reach("kept")
 	} else {
